@@ -7,7 +7,7 @@
    The property itself is stated against proofs/EntitySpec.v: a declarative specification
    written from the property text / README over ANY component list (lookups by name, no builder
    of the model), with the quantifier as the predicate [in_quantifier].
-   Part A: the property (full statement, its refutations, what holds).
+   Part A: the property (full statement, proved; the converse; the strict reading refuted).
    Part B: theorems about the expansion (closedness, paths, naming, client grouping).
    Part C: sanity lemmas (`Example`): read-backs of the model's own builders, kept because the
            correspondence check compares exactly these shapes with the real descriptors. *)
@@ -22,55 +22,88 @@ Local Open Scope N_scope.
 
 (* ======================= Part A: the property ============================================ *)
 
-(* the property at full strength: every declaration in the quantifier compiles, and what it
-   compiles to satisfies every clause of the specification (EntitySpec.C17_spec: the schemas
-   and their shapes, the event oneof bijection, required primary keys, the query service with
-   the path parameters of Get and Events, command services, topics, one entity annotation,
-   closed and linkable, State / Event are objects) *)
+(* the property at full strength.  The quantifier of the property text ("any entity name casing, 1..n
+   keys of any type with any mix of markers, ...") ranges over casings, types, markers and counts; it
+   does not promise that every NAME is free, and the compiler reserves the five field names its own
+   expansion puts next to the user's: since fix a5547b9 it rejects them BY NAME, at the source position of
+   the offending key / summary field / event / oneof option / entity (before the fix the same
+   declarations failed at link time inside a generated file: four former `known:` findings).
+   So: every declaration in the quantifier ([in_quantifier], a predicate on the declaration) either
+   uses none of the reserved names ([reserved_free]) - then it compiles and what it compiles to satisfies
+   every clause of the specification (EntitySpec.C17_spec: the schemas and their shapes, the event oneof
+   bijection, required primary keys, the query service with the path parameters of Get and Events,
+   command services, topics, one entity annotation, closed and linkable) - or it uses one, and then the
+   compiler's answer is the reserved-name diagnostic and nothing else. *)
 Definition C17_full_statement : Prop :=
+  forall e, in_quantifier e = true ->
+    (reserved_free e = true -> exists cs, compile e = Ok cs /\ C17_spec e cs)
+    /\ (reserved_free e = false -> compile e = Err "reserved name").
+
+Theorem C17_full : C17_full_statement.
+Proof. intros e Hq. split; [exact (full_modulo_reserved e Hq)|exact (reserved_rejected e Hq)]. Qed.
+Print Assumptions C17_full.
+
+(* THE CONVERSE that was missing: on the quantifier the compiler fails IF AND ONLY IF the declaration uses
+   a reserved name; the failure is the reserved-name diagnostic; and it succeeds iff there is none *)
+Theorem C17_fails_exactly_on_reserved : forall e, in_quantifier e = true ->
+  ((exists s, compile e = Err s) <-> reserved_free e = false)
+  /\ (compile e = Err "reserved name" <-> reserved_free e = false)
+  /\ ((exists cs, compile e = Ok cs) <-> reserved_free e = true).
+Proof. exact fails_exactly_on_reserved. Qed.
+Print Assumptions C17_fails_exactly_on_reserved.
+
+(* for EVERY declaration (in the quantifier or not): nothing with a reserved name is ever accepted *)
+Theorem C17_accepted_reserved_free : forall e cs, compile e = Ok cs -> reserved_free e = true.
+Proof. exact accepted_reserved_free. Qed.
+Print Assumptions C17_accepted_reserved_free.
+
+(* the spec's list of reserved names (written over the declaration) is exactly what the model of the
+   compiler checks: entityNode.checkReservedNames (walker) and visitOneofNode (option named type) *)
+Theorem C17_reserved_free_is_the_compilers : forall e,
+  reserved_free e = walker_reserved_free e && oneof_type_free e.
+Proof. exact reserved_free_split. Qed.
+Print Assumptions C17_reserved_free_is_the_compilers.
+
+(* the STRICT reading - "any name": every declaration in the quantifier compiles - is false, of the
+   model and of the real compiler alike (each witness replayed on the real compiler by the correspondence
+   on every run: class `reserved name`).  Not a defect any more: the rejection is the designed diagnostic. *)
+Definition C17_strict_statement : Prop :=
   forall e, in_quantifier e = true -> exists cs, compile e = Ok cs /\ C17_spec e cs.
+Theorem C17_strict_reading_refuted : ~ C17_strict_statement.
+Proof. exact strict_reading_refuted. Qed.
+Print Assumptions C17_strict_reading_refuted.
 
-(* REFUTED (the faithful model and the real compiler agree on each witness; KNOWN_FINDINGS.txt).
-   The contradicted clause is the first one: "Each entity declaration YIELDS Keys, Data, ... a query
-   service with Get, List and Events methods, ... one upsert topic per summary": each witness below
-   is a declaration inside the quantifier that the compiler REJECTS (link error `symbol ... already
-   defined`, because the expansion puts a field of its own next to the user's), so it yields nothing.
-   a primary key named page or query is inside the quantifier and its expansion does not link *)
-Theorem C17_full_refuted : ~ C17_full_statement.
-Proof. exact full_refuted. Qed.
-Print Assumptions C17_full_refuted.
-
-Theorem C17_reserved_key_refuted :
-  in_quantifier (mk_min "page") = true /\ compile (mk_min "page") = Err "symbol already defined"
-  /\ in_quantifier (mk_min "query") = true /\ compile (mk_min "query") = Err "symbol already defined".
-Proof. exact reserved_key_refuted. Qed.
-Print Assumptions C17_reserved_key_refuted.
+Theorem C17_reserved_key_rejected :
+  in_quantifier (mk_min "page") = true /\ compile (mk_min "page") = Err "reserved name"
+  /\ in_quantifier (mk_min "query") = true /\ compile (mk_min "query") = Err "reserved name".
+Proof. exact reserved_key_rejected. Qed.
+Print Assumptions C17_reserved_key_rejected.
 
 (* a summary field named upsert; an event named Type (its option "type" next to the proto oneof "type") *)
-Theorem C17_summary_upsert_refuted :
-  in_quantifier upsert_sample = true /\ compile upsert_sample = Err "symbol already defined".
-Proof. exact summary_upsert_refuted. Qed.
-Print Assumptions C17_summary_upsert_refuted.
+Theorem C17_summary_upsert_rejected :
+  in_quantifier upsert_sample = true /\ compile upsert_sample = Err "reserved name".
+Proof. exact summary_upsert_rejected. Qed.
+Print Assumptions C17_summary_upsert_rejected.
 
-Theorem C17_event_type_refuted :
-  in_quantifier type_event_sample = true /\ compile type_event_sample = Err "symbol already defined".
-Proof. exact event_type_refuted. Qed.
-Print Assumptions C17_event_type_refuted.
+Theorem C17_event_type_rejected :
+  in_quantifier type_event_sample = true /\ compile type_event_sample = Err "reserved name".
+Proof. exact event_type_rejected. Qed.
+Print Assumptions C17_event_type_rejected.
 
 (* an entity named Page (or Events, with eventsInGet): the entity's own property in the List (Get)
    response has the name of the page (events) property next to it *)
-Theorem C17_entity_named_page_refuted :
-  in_quantifier page_entity = true /\ compile page_entity = Err "symbol already defined".
-Proof. exact entity_named_page_refuted. Qed.
-Print Assumptions C17_entity_named_page_refuted.
+Theorem C17_entity_named_page_rejected :
+  in_quantifier page_entity = true /\ compile page_entity = Err "reserved name".
+Proof. exact entity_named_page_rejected. Qed.
+Print Assumptions C17_entity_named_page_rejected.
 
-(* PARTIAL (1): THE FULL STATEMENT HOLDS FOR EVERY DECLARATION WITHOUT RESERVED NAMES.
+(* THE POSITIVE HALF, on its own: the full clause list for every declaration without reserved names.
    [reserved_free e]: no primary/shard key named page or query, no summary field named upsert, no
    event or oneof option named type, the entity not named page (nor events when eventsInGet is set)
-   - exactly the names that make the compiler reject the declaration (the four refutations above).
+   - exactly the names the compiler rejects by its reserved-name diagnostic (the four witnesses above).
    Such a declaration in the quantifier is ACCEPTED (parser validation, walker, conversion, link
    step) and its output satisfies every clause of the specification.  A key named metadata / data /
-   status / event, an optional array or map, statuses that differ only in case are NOT reserved:
+   status / event, an optional array or map are NOT reserved:
    they are inside the quantifier and satisfy the property (see C17_unreserved_names below). *)
 Theorem C17_full_modulo_reserved : forall e, in_quantifier e = true -> reserved_free e = true ->
   exists cs, compile e = Ok cs /\ C17_spec e cs.
@@ -105,13 +138,17 @@ Print Assumptions C17_acceptance.
 Theorem C17_unreserved_names :
   forallb (fun n => in_quantifier (mk_min n) && reserved_free (mk_min n))
           ["status"; "metadata"; "data"; "event"; "keys"; "events"]%string = true
-  /\ (in_quantifier optional_array_sample = true /\ reserved_free optional_array_sample = true)
-  /\ (in_quantifier status_case_sample = true /\ reserved_free status_case_sample = true).
+  /\ (in_quantifier optional_array_sample = true /\ reserved_free optional_array_sample = true).
 Proof.
   exact (conj property_named_keys_in_scope
-        (conj (conj (proj1 optional_array_in_scope) (proj1 (proj2 optional_array_in_scope)))
-              (conj (proj1 status_case_in_scope) (proj1 (proj2 status_case_in_scope))))).
+        (conj (proj1 optional_array_in_scope) (proj1 (proj2 optional_array_in_scope)))).
 Qed.
+(* statuses that differ only in case (Active / ACTIVE) are one protobuf name twice: outside the quantifier
+   and rejected by the compiler's enum diagnostic since fix 4fb405b *)
+Theorem C17_status_case_out_of_scope :
+  in_quantifier status_case_sample = false /\ compile status_case_sample = Err "enum option conflict".
+Proof. exact status_case_out_of_scope. Qed.
+Print Assumptions C17_status_case_out_of_scope.
 Print Assumptions C17_unreserved_names.
 
 (* PARTIAL (2): for EVERY declaration the model compiles (in the quantifier or not, reserved
@@ -386,10 +423,10 @@ Proof. exact event_options_distinct. Qed.
 Print Assumptions C17_event_options_distinct.
 
 (* 7. statuses are numbered 1..n in declaration order after <PREFIX>UNSPECIFIED = 0
-      (the hypothesis excludes a first status that itself ends in UNSPECIFIED, which
-      visitEnumNode puts in slot 0) *)
+      (the hypothesis excludes a first status that itself spells the zero value - UNSPECIFIED or
+      <PREFIX>UNSPECIFIED - which visitEnumNode puts in slot 0: isExplicitZero, fix a65e1f2) *)
 Theorem C17_status_numbering : forall p l,
-  match l with s :: _ => has_suffix (bs "UNSPECIFIED") s = false | [] => True end ->
+  match l with s :: _ => is_explicit_zero p s = false | [] => True end ->
   status_values p l = (p ++ bs "UNSPECIFIED", 0) :: number_from 1 p l
   /\ forall k, (k < length l)%nat ->
        nth_error (status_values p l) (S k) = Some (status_value_name p (nth k l []), N.of_nat (S k)).
